@@ -23,20 +23,22 @@ Oracle :
                             `finalized-late` = finalize came in a later tick, `never-finalized` = not at all
      cancel, timed Pause/Hold whose command is running : directly after the call the run is no longer Paused / Holding
      cancel, Watch        : no scope activation of that Watch and no effect of any line of its body afterwards
-     force, Watch         : the Watch is activated within 3 interpreter ticks although nothing else changed
-     force, Wait          : the Wait's run-log item is completed within 2 interpreter ticks
-     force, hidden threshold instance (accepted): the line has begun within 2 interpreter ticks
+     force, Watch         : the Watch is activated within WATCH_TICKS (5) interpreter ticks although nothing else changed
+     force, Wait          : the Wait's run-log item is completed within WAIT_TICKS (3) interpreter ticks
+     force, hidden threshold instance (accepted): the line has begun within WAIT_TICKS interpreter ticks
   Offered-but-rejected requests, accepted requests on other kinds (Block, Alarm, Mark ...) and checks made inconclusive by
   the run itself (enclosing block ended, method error, run paused until the end of the case, Watch inside Alarm/Macro whose
   node is re-used by later invocations) are classified and counted, not judged.
 Signatures: offered path `<op>:<kind>:offered:<symptom>`; not-offered path `<op>:<kind>:not-offered:<pending|concluded>:
-  <accepted|rejected>:<symptom>`; a request that is *accepted for an item that already has an end state* is one mechanism
-  and is named `<op>:not-offered:concluded-item-accepted:<consequence>` whatever the node kind, consequence =
+  <accepted|rejected>:<symptom>`; a request that is *processed for an item that already has an end state* is one mechanism
+  and is named `<op>:not-offered:concluded-item-<accepted|rejected>:<consequence>` whatever the node kind, consequence =
   runlog-unproducible | cancels-other-instance-of-same-command | applied-to-later-instance | effects-differ | ...
 """
 from __future__ import annotations
 
 import copy
+import hashlib
+import json
 
 from hypothesis import strategies as st
 
@@ -50,7 +52,8 @@ ENGINE = "engine_harness"
 TECHNIQUE = ("Hypothesis-generated methods x cancel/force requests on the k-th current run-log item at generated ticks; "
              "differential twin run for not-offered requests, bounded-response effect checks for offered ones")
 RULE = ("Hypothesis draws a method (Watch/Alarm/Wait/timed Pause+Hold/UOD commands/blocks/macros, 30 % with thresholds), an "
-        "input trajectory, 25..max_ticks ticks and request sets; every request set is one case: 1 request (most) or 2-4 requests "
+        "input trajectory, 25..max_ticks ticks and a salt from which the request sets are derived by hashing; every request set is "
+        "one case: 1 request (most) or 2-4 requests "
         "(tick, cancel|force, k, pool), k resolved at run time against the current run log. The generator places a request by "
         "choosing uniformly an item that is ever in the pool during a request-free probe run and then uniformly a tick of its "
         "stay in the pool. In addition `sweep_programs` small programs are swept literally: one single-request case for every "
@@ -61,8 +64,9 @@ ASSUMPTIONS = [
     "'rejected' = engine.cancel_instruction/force_instruction raises (EngineMessageHandlers turns any exception into an ErrorMessage reply)",
     "'finalized' for a cancelled UOD command is required before cancel_instruction returns (its docstring says immediately); "
     "a command that was never initialised needs no finalize but must not start afterwards",
-    "'proceeds without waiting' is checked as bounded response: Watch activated within 3, Wait completed within 2, threshold line begun "
-    "within 2 ticks in which the interpreter runs (run started, not paused/holding/stopping)",
+    "'proceeds without waiting' is checked as bounded response: Watch activated within 5, Wait completed within 3, threshold line begun "
+    "within 3 ticks in which the interpreter runs (run started, not paused/holding/stopping); a Watch whose condition is true from the "
+    "start needs 2 such ticks, 4 when nested in another Watch/Alarm body",
     "instances awaiting a threshold are not rendered in the run log (test_runlog_item_awaiting_threshold_is_not_rendered); the "
     "'forced threshold instruction' clause is exercised with instance ids read from the tracking records (pool 'hidden'), only the "
     "accepted case is judged",
@@ -82,7 +86,12 @@ TIERS = {
 # on, multi-request sets draw their targets from the pending/hidden pools only (single-request cases still target every
 # item, concluded or not, and report the defect under its own signature); the re-mapped requests are counted.
 EXCLUDE_KNOWN_CONCLUDED_IN_MULTI = True
-SIG_CONCLUDED_ANY = "%s:not-offered:concluded-item-accepted:%s"
+# bounded response for "proceeds without waiting", in ticks in which the interpreter runs.  Measured on the unchanged tree: a
+# Watch whose condition is already true is activated 2 ticks after its first visit, 4 ticks when it sits in the body of another
+# Watch/Alarm (its interrupt is registered from inside an interrupt); a forced Wait / threshold line continues in the next tick.
+WATCH_TICKS = 5
+WAIT_TICKS = 3
+SIG_CONCLUDED_ANY = "%s:not-offered:concluded-item-%s:%s"
 SIG_CONCLUDED = "%s:not-offered:concluded-item-accepted:runlog-unproducible"
 
 KINDS = {"mark": 4, "quick": 1, "slow": 3, "ova": 1, "ovb": 1, "set": 1, "wait": 4, "pause": 2, "hold": 2, "watch": 4,
@@ -118,26 +127,32 @@ def _retune(draw, nodes):
 
 
 @st.composite
-def _request(draw, pools):
-    """abstract request [u, v, op, pool]: resolved against a request-free probe run of the program (see _resolve)"""
-    return [draw(st.integers(0, 9999)), draw(st.integers(0, 9999)), draw(st.sampled_from(H.OPS)), draw(st.sampled_from(pools))]
-
-
-@st.composite
 def programs(draw, cfg):
     thresholds = draw(st.integers(0, 9)) < 3
     tree = draw(G.program(_cfg(thresholds, cfg["max_top"], cfg["depth"])))
     _retune(draw, tree["body"])
     n = draw(st.integers(25, cfg["max_ticks"]))
     traj = draw(G.trajectory(n, max_changes=5))
-    hidden = ["hidden"] * 4 if thresholds else []
-    pools = ["pending"] * 5 + ["all"] * 4 + hidden
-    sets = []
-    for _ in range(cfg["singles"]):
-        sets.append([draw(_request(pools))])
-    for _ in range(cfg["multis"]):
-        sets.append([draw(_request(pools)) for _ in range(draw(st.integers(2, 4)))])
-    return {"tree": tree, "traj": traj, "n": n, "sets": sets}
+    salt = draw(st.integers(0, 2 ** 32 - 1))
+    return {"tree": tree, "traj": traj, "n": n, "salt": salt}
+
+
+def _request_sets(prog, cfg, thresholds: bool):
+    """abstract requests [u, v, op, pool] (resolved by _resolve), derived by hashing the drawn program, trajectory and salt.
+    Not drawn one by one: Hypothesis completes many examples with an all-zero tail, which made the request sets of a program
+    identical ([0, 0, cancel, pending] eight times); the derivation is a pure function of Hypothesis-drawn data."""
+    h0 = hashlib.sha1(json.dumps([prog["tree"], prog["traj"], prog["n"], prog["salt"]], sort_keys=True).encode()).hexdigest()
+    pools = ["pending"] * 5 + ["all"] * 4 + (["hidden"] * 4 if thresholds else [])
+
+    def rnd(i, j, field, mod):
+        return int.from_bytes(hashlib.sha1(("%s|%d|%d|%s" % (h0, i, j, field)).encode()).digest()[:4], "big") % mod
+
+    def req(i, j):
+        return [rnd(i, j, "u", 10000), rnd(i, j, "v", 10000), H.OPS[rnd(i, j, "op", 2)], pools[rnd(i, j, "pool", len(pools))]]
+    sets = [[req(i, 0)] for i in range(cfg["singles"])]
+    for i in range(cfg["multis"]):
+        sets.append([req(1000 + i, j) for j in range(2 + rnd(1000 + i, 0, "len", 3))])
+    return sets
 
 
 def _resolve(abstract, probe, n, multi: bool):
@@ -359,7 +374,7 @@ def oracle(case, A, B):
             if rec["op"] != "force":
                 classes.append("hidden-cancel-accepted")
                 continue
-            ticks, complete = _window(A, rec, 2)
+            ticks, complete = _window(A, rec, WAIT_TICKS)
             why = _disrupted(prog, A, rec, line, ticks)
             begun = any(tk["begun"] is not None and line.id in tk["begun"] for tk in ticks)
             if begun:
@@ -368,7 +383,7 @@ def oracle(case, A, B):
                 classes.append("inconclusive:force-threshold:%s" % (why or "run-ends"))
             else:
                 viol("force:threshold:hidden:still-waiting",
-                     "%s, but line %r had not begun after 2 interpreter ticks" % (describe(rec), line.text))
+                     "%s, but line %r had not begun after %d interpreter ticks" % (describe(rec), line.text, WAIT_TICKS))
             continue
 
         if rec["op"] == "cancel":
@@ -437,7 +452,7 @@ def oracle(case, A, B):
                 if prog.repeating(line):
                     classes.append("unjudged:force:watch-in-alarm-or-macro")
                     continue
-                ticks, complete = _window(A, rec, 3)
+                ticks, complete = _window(A, rec, WATCH_TICKS)
                 why = _disrupted(prog, A, rec, line, ticks)
                 end = ticks[-1]["ev_end"] if ticks else rec["ev_end"]
                 act = any(e[1] == "scope_activate" and e[2] == "Watch" and e[3] == line.id for e in A.events[rec["ev_start"]:end])
@@ -447,12 +462,12 @@ def oracle(case, A, B):
                     classes.append("inconclusive:force:watch:%s" % (why or "run-ends"))
                 else:
                     viol("force:watch:offered:not-activated",
-                         "%s, but %r was not activated within 3 interpreter ticks" % (describe(rec), line.text))
+                         "%s, but %r was not activated within %d interpreter ticks" % (describe(rec), line.text, WATCH_TICKS))
             elif grp == "wait":
                 if float(line.node.get("d", 0)) < 0.15:
                     classes.append("unjudged:force:wait-shorter-than-a-tick")
                     continue
-                ticks, complete = _window(A, rec, 2)
+                ticks, complete = _window(A, rec, WAIT_TICKS)
                 why = _disrupted(prog, A, rec, line, ticks)
                 done = any(isinstance(tk["rl"], list) and any(d["id"] == iid and d["state"] == "completed" for d in tk["rl"]) for tk in ticks)
                 if done:
@@ -463,7 +478,7 @@ def oracle(case, A, B):
                     classes.append("inconclusive:force:wait:%s" % (why or "run-ends"))
                 else:
                     viol("force:wait:offered:still-waiting",
-                         "%s, but the Wait was not completed within 2 interpreter ticks" % describe(rec))
+                         "%s, but the Wait was not completed within %d interpreter ticks" % (describe(rec), WAIT_TICKS))
             else:
                 classes.append("unjudged:force-accepted:%s" % grp)
 
@@ -500,25 +515,25 @@ def oracle(case, A, B):
             else:
                 detail = "run log with request: %s, without: %s" % (pa["rl"] if isinstance(pa["rl"], str) else "producible",
                                                                       pb["rl"] if isinstance(pb["rl"], str) else "producible")
+            if diff == "other-item-changed" and changed_name == rec["name"] and rec["accepted"]:
+                diff = "applied-to-later-instance"    # the request landed on a later instance of the same line (stale item)
             sig = "%s:%s:not-offered:%s:%s:%s" % (rec["op"], grp, rec["status"], acc, diff)
-            if rec["accepted"] and rec["status"] == "concluded":
+            if rec["status"] == "concluded":
                 # one root cause (a request for an instance that has already ended is not refused), named by its consequence;
                 # the node kind is in the message, not in the signature
                 sym = diff
                 cmd_name = rec["name"].split(":")[0]
-                if rec["op"] == "cancel" and grp in ("uod", "pause", "hold") and i == rec["point"]:
+                if rec["op"] == "cancel" and rec["accepted"] and grp in ("uod", "pause", "hold") and i == rec["point"]:
                     # the command of the ended item is looked up by *name*: a later instance of the same command (running or
                     # requested) is cancelled instead
                     other_finalized = any(e[1] == "cmd" and e[2] == cmd_name and e[4] == "finalize" and e[3] != rec["iid"] for e in pa["raw_events"])
-                    other_cancelled = diff == "other-item-changed" and any(
+                    other_cancelled = diff in ("other-item-changed", "applied-to-later-instance") and any(
                         d["state"] == "cancelled" and d["id"] != rec["iid"] and d["name"].split(":")[0] == cmd_name and
                         not any(x["id"] == d["id"] and x["state"] == "cancelled" for x in pb["rl"]) for d in pa["rl"])
                     resumed = any(e[1] == "runstate" and str(e[2]).lower().endswith("unpause" if grp == "pause" else "unhold") for e in pa["raw_events"])
                     if other_finalized or other_cancelled or (grp in ("pause", "hold") and resumed):
                         sym = "cancels-other-instance-of-same-command"
-                if sym == "other-item-changed" and changed_name == rec["name"]:
-                    sym = "applied-to-later-instance"
-                sig = SIG_CONCLUDED_ANY % (rec["op"], sym)
+                sig = SIG_CONCLUDED_ANY % (rec["op"], acc, sym)
             viol(sig, "%s although the run log did not offer it; the run then differs from the twin run without the request at %s: %s"
                  % (describe(rec), pa["label"], detail))
             break
@@ -577,7 +592,7 @@ def run_shard(col, cfg):
         lines = G.render(prog["tree"])
         common = _case_classes(lines, prog["tree"])
         probe = H.execute({"tree": prog["tree"], "traj": prog["traj"], "n": prog["n"], "reqs": []}, lines, probe=True)
-        for abstract in prog["sets"]:
+        for abstract in _request_sets(prog, cfg, "method-with-thresholds" in common):
             if col.expired():
                 return
             reqs, remapped = _resolve(abstract, probe, prog["n"], multi=len(abstract) > 1)
@@ -588,9 +603,14 @@ def run_shard(col, cfg):
             col.record(case, nontrivial, classes=classes, violations=vs,
                        sample={"method": G.text_of(lines), "traj": case["traj"], "ticks": case["n"], "reqs": reqs})
 
+    seen = [0]
+
     def sweep(prog):
         """the quantifier literally, on a small program: every item of the run log (and every hidden threshold instance)
         at every tick, with both operations - one single-request case each"""
+        seen[0] += 1
+        if seen[0] == 1:
+            return   # Hypothesis always starts with the simplest example (the same one-line program for every seed and shard)
         lines = G.render(prog["tree"])
         common = _case_classes(lines, prog["tree"]) + ["sweep:case"]
         probe = H.execute({"tree": prog["tree"], "traj": prog["traj"], "n": prog["n"], "reqs": []}, lines, probe=True)
@@ -614,5 +634,5 @@ def run_shard(col, cfg):
     mine = n_sweep // col.nshards + (1 if col.shard < n_sweep % col.nshards else 0)
     if mine:
         scfg = dict(cfg, singles=0, multis=0, max_top=cfg["sweep_top"], depth=2, max_ticks=cfg["sweep_ticks"])
-        hyp_run(programs(scfg), sweep, mine, shard_seed(col.seed, col.shard) + 500009, col)
+        hyp_run(programs(scfg), sweep, mine + 1, shard_seed(col.seed, col.shard) + 500009, col)
     hyp_run(programs(cfg), body, max(1, cfg["examples"] // col.nshards), shard_seed(col.seed, col.shard), col)
